@@ -40,7 +40,7 @@ func CompileXGoFiles(files map[string]string, conf func(*cl.Config)) (out []byte
 			err = fmt.Errorf("PANIC: %v", r)
 		}
 	}()
-	fset := token.NewFileSet()
+	fset := sharedFset
 	ctx := build.NewContext(importer(fset), fset)
 	ctx.LoadConfig = conf
 	var names, srcs []string
@@ -66,23 +66,32 @@ func CompileXGoFiles(files map[string]string, conf func(*cl.Config)) (out []byte
 	return pkg.ToSource()
 }
 
+// One file set and one importer for the whole process: loading export data costs a `go list`
+// per package, compiling against an already loaded importer costs milliseconds.
+var (
+	sharedFset = token.NewFileSet()
+	sharedImp  *packages.Importer
+)
+
 func importer(fset *token.FileSet) *packages.Importer {
-	// one importer per file set keeps positions consistent; export data is cached by the go tool
-	return packages.NewImporter(fset)
+	if sharedImp == nil {
+		sharedImp = packages.NewImporter(fset)
+	}
+	return sharedImp
 }
 
 // ---- building and running ----
 
 // Prog is one program of a batch.
 type Prog struct {
-	Name    string // directory name inside the scratch module
-	GoSrc   []byte // complete main package, one file
-	Extra   map[string][]byte
-	BuildOK bool
+	Name     string // directory name inside the scratch module
+	GoSrc    []byte // complete main package, one file
+	Extra    map[string][]byte
+	BuildOK  bool
 	BuildErr string
-	Stdout  string
-	Stderr  string
-	Exit    int
+	Stdout   string
+	Stderr   string
+	Exit     int
 	TimedOut bool
 }
 
@@ -228,7 +237,7 @@ func (s *Scratch) RunAll(progs []*Prog) {
 				} else if err != nil {
 					p.Exit = -1
 				}
-			case <-time.After(20 * time.Second):
+			case <-time.After(10 * time.Second):
 				cmd.Process.Kill()
 				<-done
 				p.TimedOut = true
